@@ -13,7 +13,7 @@ import (
 	"github.com/lidofinance/dc4bc/storage"
 )
 
-var c15Altering = []string{"ID", "Type", "Payload", "Event-empty", "unknown-ID"}
+var c15Altering = []string{"ID", "Type", "Payload", "Payload-emptied", "Payload-null", "Payload-truncated", "Payload-extended", "Event-empty", "unknown-ID"}
 var c15Neutral = []string{"To", "DKGIdentifier", "CreatedAt", "ExtraData", "ResultMsgs-presigned"}
 
 // runC15: carrier faults on the hot<->cold path and the JSON round trips.
@@ -146,6 +146,20 @@ func runC15(w *World, tier string) (bool, interface{}) {
 					}
 					v.Payload = append([]byte(nil), v.Payload...)
 					v.Payload[w.Tape.Choose(len(v.Payload), "plByte")] ^= 0x01
+				case "Payload-emptied", "Payload-null", "Payload-truncated", "Payload-extended":
+					if len(v.Payload) == 0 {
+						continue
+					}
+					switch kind {
+					case "Payload-emptied":
+						v.Payload = []byte{}
+					case "Payload-null":
+						v.Payload = nil
+					case "Payload-truncated":
+						v.Payload = append([]byte(nil), v.Payload[:len(v.Payload)-1-w.Tape.Choose(len(v.Payload), "plCut")%len(v.Payload)]...)
+					default:
+						v.Payload = append(append([]byte(nil), v.Payload...), ' ')
+					}
 				case "Event-empty":
 					v.Event = ""
 					v.ResultMsgs = nil
@@ -201,6 +215,27 @@ func runC15(w *World, tier string) (bool, interface{}) {
 				}
 				body, _ = json.Marshal(genuine)
 				kinds = append(kinds, "neutral-"+k+"@"+string(o.Type))
+			}
+			// the board is unreachable for one submission: nothing is posted, the
+			// operation stays pending, and the later retry posts it exactly once
+			if string(genuine.Event) != string(types.OperationProcessed) && len(genuine.ResultMsgs) > 0 && w.Tape.Bool(1, 8, "boardDown?") {
+				nd.Handle.SendErrOnce = true
+				pool0, blen0 := poolIDs(nd), w.Board.Len()
+				repE := submit(i, body, &inflight{node: i, op: o, expect: genuine.ResultMsgs, legit: true})
+				nd.Handle.SendErrOnce = false
+				kinds = append(kinds, "board-unreachable@"+string(o.Type))
+				judged++
+				if w.Failed() {
+					return repE
+				}
+				if repE.OK() {
+					w.Fail("C15", "submission-reported-success-although-board-unreachable/"+string(o.Type), fmt.Sprintf("node %d answered OK although the board refused the messages", i))
+					return repE
+				}
+				if w.Board.Len() != blen0 || poolIDs(nd) != pool0 {
+					w.Fail("C15", "failed-post-had-effects/"+string(o.Type), fmt.Sprintf("node %d could not reach the board (%s) but the board grew by %d / the pool changed (%s -> %s)", i, repE.ErrMsg, w.Board.Len()-blen0, pool0, poolIDs(nd)))
+					return repE
+				}
 			}
 			inf := &inflight{node: i, op: o, expect: genuine.ResultMsgs, legit: true}
 			blen := w.Board.Len()
